@@ -246,6 +246,15 @@ func (g statusGen) run(rng *rand.Rand, tier string, k int) Case {
 		trials.Items = append(trials.Items, t)
 		ttoks = append(ttoks, strings.TrimSpace(fmt.Sprintf("%s %d %s %d %s %s", hx(t.Name), mask, hx(objName), ns, strings.Join(stoks, " "), obsTok)))
 	}
+	// the stale optimal trial may carry the name of a present trial with an outdated payload (its observation was refreshed
+	// since the earlier reconcile): the payload must then be refreshed too
+	staleName := "stale"
+	stalePayload := []commonv1beta1.Metric{{Name: "stale-metric", Latest: "0", Min: "0", Max: "0"}}
+	if len(trials.Items) > 0 && rng.Intn(2) == 0 {
+		staleName = trials.Items[rng.Intn(len(trials.Items))].Name
+		exp.Status.CurrentOptimalTrial.BestTrialName = staleName
+		exp.Status.CurrentOptimalTrial.Observation.Metrics = stalePayload
+	}
 	ot := objType
 	if ot == "" {
 		ot = "other"
@@ -283,7 +292,8 @@ func (g statusGen) run(rng *rand.Rand, tier string, k int) Case {
 			}
 		}
 		best := "none"
-		if s.CurrentOptimalTrial.BestTrialName != "stale" {
+		keptStale := s.CurrentOptimalTrial.BestTrialName == staleName && reflect.DeepEqual(s.CurrentOptimalTrial.Observation.Metrics, stalePayload)
+		if s.CurrentOptimalTrial.BestTrialName != "stale" && !keptStale {
 			best = hx(s.CurrentOptimalTrial.BestTrialName)
 			// payload: assignments and observation must be exactly the named trial's
 			for _, t := range trials.Items {
